@@ -131,7 +131,18 @@ def cases(ctx):
                     line_no = ("\n".join(["; included file", "inc_label:", "    nop"] + ([noise] if noise else []) + [""])).count("\n")
                     src = "\n".join(lines[:pos] + [".include 'inc/part.s'"] + lines[pos:])
                     files, fname = {"inc/part.s": inc}, "inc/part.s"
-                out.append({"kind": f"{kind}:{where}", "rom": rom, "src": src, "files": files, "count_empty": True,
-                            "spec": {"t": "c17", "file": fname, "line": line_no,
-                                     "col": None if col is None else col + len(indent), "text": err_line.split("\n")[0]}})
+                # blank lines in front of the main file (they count), and the same report through the file API / the command line
+                lead = rng.choice([0, 0, 0, 1, 2, 3]) if where == "main" else 0
+                if lead:
+                    src = rng.choice(["\n", " \n", "\t\n"]) * lead + src
+                    line_no += lead
+                c = {"kind": f"{kind}:{where}", "rom": rom, "src": src, "files": files, "count_empty": True,
+                     "spec": {"t": "c17", "file": fname, "line": line_no,
+                              "col": None if col is None else col + len(indent), "text": err_line.split("\n")[0]}}
+                r = rng.random()
+                if r < 0.3:
+                    c.update({"api": True, "format": rng.choice(["ips", "sfc"]), "mapping": rom, "copier": False})
+                if r < 0.08:
+                    c["cli"] = True
+                out.append(c)
     return out
